@@ -186,9 +186,13 @@ func VF_C11_service_name() {
 	vfReach("C11_service_name")
 }
 
-// vfReserved: the container's own exported API, read from the runtime type.
+// vfReserved: the container's own exported API — its methods and the field
+// through which the generated type embeds it — read from the runtime type.
 func vfReserved(g string) bool {
 	t := reflect.TypeOf(container.New())
+	if t.Elem().Name() == g {
+		return true
+	}
 	for i := 0; i < t.NumMethod(); i++ {
 		if t.Method(i).Name == g {
 			return true
@@ -399,4 +403,73 @@ func VF_C11_todo() {
 	err := vfWhole(Input{Services: map[string]Service{n: s}})
 	vfAssert((err == nil) == vfInRe(n, az(docName)), "todo service: only the name is validated")
 	vfReach("C11_todo")
+}
+
+func init() {
+	vfRegister("VF_C11_dup_getters", VF_C11_dup_getters)
+	vfRegister("VF_C13_collisions", VF_C13_collisions)
+}
+
+// VF_C11_dup_getters: two services may not share a getter.
+func VF_C11_dup_getters() {
+	g1, g2 := vfStr("g1", 4), vfStr("g2", 4)
+	vfAssume(vfInRe(g1, az(docIdent)) && vfInRe(g2, az(docIdent)))
+	vfAssume(!vfReserved(g1) && !vfReserved(g2) && g1 != "Must" && g2 != "Must")
+	s1, s2 := vfValidService(), vfValidService()
+	s1.Getter, s2.Getter = &g1, &g2
+	err := vfWhole(Input{Services: map[string]Service{"a": s1, "b": s2}})
+	vfAssert((err == nil) == (g1 != g2), "duplicate getters are rejected, distinct ones accepted")
+	vfReach("C11_dup_getters")
+}
+
+// VF_C13_collisions: no accepted getter produces a method that collides with
+// the container's own API: G, GInContext, MustG, MustGInContext are all
+// different from every method and from the embedded field of the container.
+func VF_C13_collisions() {
+	g := vfStr("getter", vfBound("c13.len", 12, 24))
+	s := vfValidService()
+	s.Getter = &g
+	err := ValidateServiceGetter(s)
+	if err == nil {
+		for _, m := range []string{g, g + "InContext", "Must" + g, "Must" + g + "InContext"} {
+			vfAssert(!vfReserved(m), "a generated method never has the name of a container method")
+			vfAssert(m != "Container", "a generated method never has the name of the embedded container field")
+		}
+	}
+	vfReach("C13_collisions")
+}
+
+func init() { vfRegister("VF_C04_tag_yaml", VF_C04_tag_yaml) }
+
+// VF_C04_tag_yaml: a tag is a string (priority 0) or a mapping with a string
+// name and an optional int priority that is kept unchanged.
+func VF_C04_tag_yaml() {
+	v := vfAny("tag", 2)
+	var t Tag
+	err := t.UnmarshalYAML(func(p interface{}) error {
+		*(p.(*interface{})) = v
+		return nil
+	})
+	switch x := v.(type) {
+	case string:
+		vfAssert(err == nil && t.Name == x && t.Priority == 0, "string tag: that name, priority 0")
+	case map[string]interface{}:
+		n, hasN := x["name"]
+		p, hasP := x["priority"]
+		name, nameOK := n.(string)
+		prio, prioOK := p.(int)
+		ok := hasN && nameOK && (!hasP || prioOK)
+		vfAssert((err == nil) == ok, "mapping tag: needs a string name and, if given, an int priority")
+		if err == nil {
+			vfAssert(t.Name == name, "mapping tag: name kept")
+			if hasP {
+				vfAssert(t.Priority == prio, "mapping tag: priority kept unchanged")
+			} else {
+				vfAssert(t.Priority == 0, "mapping tag: default priority 0")
+			}
+		}
+	default:
+		vfAssert(err != nil, "any other shape is rejected")
+	}
+	vfReach("C04_tag_yaml")
 }
